@@ -45,6 +45,7 @@ import (
 	stats "github.com/openGemini/openGemini/lib/statisticsPusher/statistics"
 	"github.com/openGemini/openGemini/lib/util"
 	"github.com/openGemini/openGemini/lib/util/lifted/influx/influxql"
+	"github.com/openGemini/openGemini/lib/verifhook"
 	"github.com/savsgio/dictpool"
 	"go.uber.org/zap"
 )
@@ -870,10 +871,12 @@ func (m *MmsTables) ReplaceFiles(name string, oldFiles, newFiles []TSSPFile, isO
 		return
 	}
 
+	verifhook.Point("replace-after-log")
 	if err := RenameTmpFiles(newFiles); err != nil {
 		m.logger.Error("rename new file fail", zap.String("name", name), zap.String("dir", shardDir), zap.Error(err))
 		return err
 	}
+	verifhook.Point("replace-after-rename")
 
 	mmsTables := m.ImmTable.getFiles(m, isOrder)
 	m.mu.RLock()
@@ -895,6 +898,7 @@ func (m *MmsTables) ReplaceFiles(name string, oldFiles, newFiles []TSSPFile, isO
 			return
 		}
 	}
+	verifhook.Point("replace-after-delete-old")
 	// add new files
 	fs.files = append(fs.files, newFiles...)
 	sort.Sort(fs)
